@@ -40,6 +40,9 @@ type c12Params struct {
 	Role  string `json:"role,omitempty"` // role of the REAL endpoint (alert, early-app, cancel)
 	// early-app / cancel: after how many of its handshake messages the scripted peer deviates / stalls
 	Step int `json:"step,omitempty"`
+	// cancel: Second - another task has started the handshake through Read and is blocked in it when
+	// HandshakeContext is called (and then cancelled)
+	Second bool `json:"second,omitempty"`
 	// api
 	Seq []string `json:"seq,omitempty"`
 }
@@ -47,7 +50,7 @@ type c12Params struct {
 func (c12) ID() string    { return "C12" }
 func (c12) Level() string { return "exploration" }
 func (c12) Rule() string {
-	return "seeded API histories on the stream stack, five families: (cut) a writer sends N records and then closes / half-closes / does nothing while the transport of that direction ends before or inside a drawn record at a drawn byte offset (thorough: every offset of small records), the reader keeps calling Read after the end; (alert) after a clean handshake a scripted peer sends protected alerts of every level and a range of descriptions, single or in runs; (early-app) a scripted peer sends application data after k handshake messages; (cancel) HandshakeContext is cancelled while the peer stalls after k handshake messages; (hs-timeout) the connection deadline expires during the handshake because the peer is slow, is cleared, and the peer's messages arrive late; (api) sequences of Close / CloseWrite / Write / Read / Handshake on one end, incl. before the handshake. Oracle: a small state machine per end - delivered bytes are a prefix of what the peer wrote made of whole records; io.EOF only after everything written was delivered and only on close_notify or a cut exactly on a record boundary; a cut inside a record gives io.ErrUnexpectedEOF; every later Read repeats the failure and delivers nothing; after Close every call fails and a second Close reports net.ErrClosed; Write after CloseWrite fails; a failed handshake stays failed; early application data is never delivered; a cancelled handshake returns the context's error. distinct = distinct parameter vectors; non-trivial = the event under test happened"
+	return "seeded API histories on the stream stack, five families: (cut) a writer sends N records and then closes / half-closes / does nothing while the transport of that direction ends before or inside a drawn record at a drawn byte offset (thorough: every offset of small records), the reader keeps calling Read after the end; (alert) after a clean handshake a scripted peer sends protected alerts of every level and a range of descriptions, single or in runs; (early-app) a scripted peer sends application data after k handshake messages; (cancel) HandshakeContext is cancelled while the peer stalls after k handshake messages - in a third of the cases another task had started the handshake through Read and is blocked in it; (hs-timeout) the connection deadline expires during the handshake because the peer is slow, is cleared, and the peer's messages arrive late; (api) sequences of Close / CloseWrite / Write / Read / Handshake / renewing the deadlines on one end, incl. before the handshake. Oracle: a small state machine per end - delivered bytes are a prefix of what the peer wrote made of whole records; io.EOF only after everything written was delivered and only on close_notify or a cut exactly on a record boundary; a cut inside a record gives io.ErrUnexpectedEOF; every later Read repeats the failure and delivers nothing; after Close every call fails and a second Close reports net.ErrClosed; Write after CloseWrite fails; a failed handshake stays failed; early application data is never delivered; a cancelled handshake returns the context's error. distinct = distinct parameter vectors; non-trivial = the event under test happened"
 }
 func (c12) Components() (real, stub []string) {
 	return []string{"tlcp.Conn (instrumented): Read/Write/Close/CloseWrite/HandshakeContext, alert handling, error latching", "the handshake-context interrupter goroutine (real, unmanaged; its transport Close is awaited as an external event)"},
@@ -66,7 +69,7 @@ func (c12) Make(tier string, seed uint64, i int) *Case {
 	return &Case{Prop: "C12", Index: i, Seed: CaseSeed(seed, "C12", i)}
 }
 
-var c12APIOps = []string{"handshake", "write", "read", "closewrite", "close", "write", "close", "handshake"}
+var c12APIOps = []string{"handshake", "write", "read", "closewrite", "close", "write", "close", "handshake", "deadline"}
 
 func drawC12(src *vs.Src) *c12Params {
 	p := &c12Params{Suite: pickU16(src, []uint16{ECC_GCM, ECC_CBC}), Dir: src.Intn(2), Seg: src.Intn(3)}
@@ -102,6 +105,7 @@ func drawC12(src *vs.Src) *c12Params {
 		p.Mode = "cancel"
 		p.Role = pickStr(src, []string{"client", "server"})
 		p.Step = src.Intn(4)
+		p.Second = src.Bool(1, 3)
 		if src.Bool(1, 2) {
 			// instead of cancelling a context: the connection's deadline expires while the peer is slow; the
 			// deadline is then cleared and the peer's messages arrive late
@@ -346,7 +350,22 @@ func c12Scripted(c *Case, src *vs.Src, p *c12Params, r *Result) {
 	ctx, cancel := context.WithCancel(context.Background())
 	defer cancel()
 	stalled := false
+	firstIn := false
+	var firstErr error
+	if p.Mode == "cancel" && p.Second {
+		w.Go("real-first", func() {
+			firstIn = true
+			_, firstErr = h.Real.Read(make([]byte, 16))
+			if firstErr == nil {
+				firstErr = fmt.Errorf("Read returned data")
+			}
+		})
+	}
 	w.Go("real", func() {
+		if p.Mode == "cancel" && p.Second {
+			vs.Block(func() bool { return firstIn }, time.Time{})
+			vs.Yield()
+		}
 		switch p.Mode {
 		case "cancel":
 			hsErr = h.TReal.HandshakeContext(ctx)
@@ -555,6 +574,11 @@ func c12API(c *Case, src *vs.Src, p *c12Params, r *Result) {
 				s.err = ut.CloseWrite()
 			case "close":
 				s.err = ut.Close()
+			case "deadline":
+				// the application renews its deadlines (an hour ahead): no effect on what is allowed afterwards
+				if t, ok := ut.(tEP); ok {
+					t.Conn.SetDeadline(vs.Now().Add(time.Hour))
+				}
 			}
 			trace = append(trace, s)
 		}
